@@ -13,6 +13,13 @@ import vlib
 COQ_W = "-notation-overridden,-deprecated,-ambiguous-paths"
 
 
+def bname(n):
+    """build names are per repository path, so that concurrent checks of different trees
+    (VERIF_REPO) never run each other's binaries"""
+    import hashlib
+    return n if vlib.REPO == "/repo" else n + "_" + hashlib.md5(vlib.REPO.encode()).hexdigest()[:6]
+
+
 def hx(bs):
     bs = bytes(bs)
     return bs.hex() if bs else "-"
@@ -240,13 +247,13 @@ DH_WRAPS = ["BN_bin2bn", "BN_new", "BN_CTX_new", "BN_add", "BN_sub", "BN_set_wor
 
 def build_dh_wrap():
     """the repo's -O2 build (no sanitizer) with the BN_* calls of crypto_dh.c interposed"""
-    return vlib.build_c("drv_dh_wrap", "drv_dh.c", DH_SRCS, cflags=["-DDRV_DH_WRAP"], ldflags=["-lcrypto"],
+    return vlib.build_c(bname("drv_dh_wrap"), "drv_dh.c", DH_SRCS, cflags=["-DDRV_DH_WRAP"], ldflags=["-lcrypto"],
                         wraps=DH_WRAPS, asan=False)
 
 
 def check_dh(ctx):
     sub = "dh"
-    exe, err = vlib.build_c("drv_dh_asan", "drv_dh.c", DH_SRCS, ldflags=["-lcrypto"], asan=True)
+    exe, err = vlib.build_c(bname("drv_dh_asan"), "drv_dh.c", DH_SRCS, ldflags=["-lcrypto"], asan=True)
     if not exe:
         ctx.fail(sub, "build", "", "C driver does not build: " + err)
         return
@@ -396,11 +403,11 @@ def strip_ent(l):
 def check_drbg(ctx):
     sub = "drbg"
     none_h = os.path.join(vlib.VERIF, "harness", "cpuconfig", "none.h")
-    exe, err = vlib.build_c("drv_drbg_asan", "drv_drbg.c", DRBG_SRCS, cpuconfig=none_h, asan=True)
+    exe, err = vlib.build_c(bname("drv_drbg_asan"), "drv_drbg.c", DRBG_SRCS, cpuconfig=none_h, asan=True)
     if not exe:
         ctx.fail(sub, "build", "", "C driver does not build: " + err)
         return
-    fexe, err = vlib.build_c("drv_drbg_fill", "drv_drbg.c", ["util/warnp.c"], cflags=["-DDRV_FILL"],
+    fexe, err = vlib.build_c(bname("drv_drbg_fill"), "drv_drbg.c", ["util/warnp.c"], cflags=["-DDRV_FILL"],
                              wraps=["read"], cpuconfig=none_h, asan=True)
     if not fexe:
         ctx.fail(sub, "build", "", "C driver (entropy_read_fill) does not build: " + err)
@@ -533,11 +540,11 @@ def check_dh_wipe(ctx):
     # the property; a different event sequence alone is a broken correspondence
     nd = 0
     for c, a, m in zip(cases, impl, model):
-        if a == m:
+        pf = (" leak=0" not in a) or (" live=0" not in a)     # judged on the implementation's output alone
+        if a == m and not pf:
             continue
         nd += 1
         if nd <= 4:
-            pf = (" leak=1" in a) or (" live=0" not in a)
             ctx.fail(sub, "property" if pf else "diff", c[:60] + "... k=" + c.split()[-1] if len(c) > 200 else c,
                      "impl=%s model=%s" % (a[:300], m[:300]), property_fails=pf)
     ctx.count(sub + ".disagreements", nd)
